@@ -277,6 +277,13 @@ func (r *ioRunner) run(ops []ioOp) {
 			peerQ <- nil
 		case "OS":
 			if opActive() {
+				// give a merely slow operation time to return (a blocked one stays blocked)
+				select {
+				case <-done:
+				case <-time.After(400 * time.Millisecond):
+				}
+			}
+			if opActive() {
 				// the model says the previous operation has returned, the real one has not:
 				// never run two operations on one stream (the API forbids it); report and stop
 				r.log.Ev("OPFAIL", tr.M{"why": "OS: the previous operation has not returned"})
